@@ -14,7 +14,7 @@ c = po.get('coverage', {})
 ev['coverage']['preserve_order_build'] = {k: c[k] for k in ('evaluations', 'distinct_nontrivial', 'distinct_observed_outcomes', 'outcomes', 'exhaustive') if k in c}
 ev['coverage']['preserve_order_build']['violations'] = po.get('violations', 0)
 ev['coverage']['preserve_order_build']['wall_s'] = po.get('wall_s', 0)
-ev['coverage']['preserve_order_build']['rule'] = 'the same enumeration run on a second build of the harness with minijinja\'s preserve_order feature (IndexMap-backed maps)'
+ev['coverage']['preserve_order_build']['rule'] = 'the same enumeration run on a second build of the harness with minijinja\'s preserve_order (IndexMap-backed maps), unicode, speedups (v_htmlescape) and stacker features'
 ev['violations'] = ev.get('violations', 0) + po.get('violations', 0)
 ev['wall_s'] = round(ev.get('wall_s', 0) + po.get('wall_s', 0), 3)
 json.dump(ev, open(main_p, 'w'), indent=1)
